@@ -43,28 +43,13 @@ theorem validated_map_ok {β : Type} (l : List β) (f : β → Hdr) :
     simp only [List.map_cons]
     rw [Lumina.Proofs.HeaderExClient.validated_cons_ok _ _ (f x) (by simp [Lumina.Model.HeaderExClient.toValidated]), ih]
 
-/-- a peer that has the headers and answers fully: the client hands the session exactly the
-    requested headers of the chain -/
-theorem clientAnswer_full (net : Net) (h a : Nat) (hh : 1 ≤ h) (ha : 1 ≤ a) (ha512 : a ≤ PEER_CAP)
-    (hcov : h + a - 1 ≤ net.chainLen) (hfit : h + a - 1 ≤ U64_MAX) :
-    clientAnswer 32 true net .full h a = .ok ((List.range' h a).map chainHdr) := by
-  have hvalid : isValid 32 { data := .origin h, amount := a } = true := by
-    have h0 : a ≠ 0 := by omega
-    have hn : h ≠ 0 := by omega
-    simp [isValid, h0, hn]
-  have havail : (if 1 ≤ h ∧ h ≤ net.chainLen then min (min a PEER_CAP) (net.chainLen - h + 1) else 0) = a := by
-    have : 1 ≤ h ∧ h ≤ net.chainLen := ⟨hh, by omega⟩
-    simp only [this, and_self, ↓reduceIte]
-    omega
-  have hresps : peerResps net .full h a
-      = (List.range' h a).map (fun x => ({ status := 1, decoded := some (chainHdr x) } : Resp)) := by
-    have h0 : a ≠ 0 := by omega
-    simp only [peerResps, havail, h0, ↓reduceIte]
-  unfold clientAnswer
-  simp only [hvalid, Bool.not_true, Bool.false_eq_true, ↓reduceIte, hresps]
-  -- run the acceptance function on the perfect answer
-  set_option maxRecDepth 2000 in
-  have hall : ∀ r ∈ (List.range' h a).map (fun x => ({ status := 1, decoded := some (chainHdr x) } : Resp)),
+/-- the client accepts a non-empty prefix `h, …, h+m-1` of the chain sent by a peer, as it is -/
+theorem decode_chain_prefix (h a m : Nat) (hh : 1 ≤ h) (hm : 1 ≤ m) (hma : m ≤ a)
+    (hfit : h + m - 1 ≤ U64_MAX) :
+    decodeAndVerifyG true { data := .origin h, amount := a }
+      ((List.range' h m).map (fun x => ({ status := 1, decoded := some (chainHdr x) } : Resp)))
+      = .ok ((List.range' h m).map chainHdr) := by
+  have hall : ∀ r ∈ (List.range' h m).map (fun x => ({ status := 1, decoded := some (chainHdr x) } : Resp)),
       r.status = 1 ∧ r.decoded.isSome = true := by
     intro r hr
     simp only [List.mem_map] at hr
@@ -73,12 +58,12 @@ theorem clientAnswer_full (net : Net) (h a : Nat) (hh : 1 ≤ h) (ha : 1 ≤ a) 
   have hloop := Lumina.Proofs.HeaderExClient.decodeLoop_all _ hall []
   rw [validated_map_ok] at hloop
   simp only [List.nil_append] at hloop
-  have hheights : ((List.range' h a).map chainHdr).map (·.height) = List.range' h ((List.range' h a).map chainHdr).length := by
+  have hheights : ((List.range' h m).map chainHdr).map (·.height) = List.range' h ((List.range' h m).map chainHdr).length := by
     simp [chainHdr, Function.comp_def]
-  have hsort : Lumina.Model.HeaderExClient.sortByHeight ((List.range' h a).map chainHdr) = (List.range' h a).map chainHdr :=
+  have hsort : Lumina.Model.HeaderExClient.sortByHeight ((List.range' h m).map chainHdr) = (List.range' h m).map chainHdr :=
     Lumina.Proofs.HeaderExClient.sortByHeight_id _
       (Lumina.Proofs.HeaderExClient.range'_heights_ascending _ h hheights)
-  have hmatch : Lumina.Model.HeaderExClient.heightsMatchFrom h ((List.range' h a).map chainHdr) = true := by
+  have hmatch : Lumina.Model.HeaderExClient.heightsMatchFrom h ((List.range' h m).map chainHdr) = true := by
     apply Lumina.Proofs.HeaderExClient.heightsMatchFrom_complete _ _ h hheights
     intro x hx
     simp only [List.mem_map, List.mem_range'_1] at hx
@@ -87,8 +72,46 @@ theorem clientAnswer_full (net : Net) (h a : Nat) (hh : 1 ≤ h) (ha : 1 ≤ a) 
     have : Lumina.Model.HeaderExClient.U64_MAX = U64_MAX := rfl
     omega
   have hn : h ≠ 0 := by omega
-  have h0 : a ≠ 0 := by omega
-  simp [decodeAndVerifyG, hloop, hsort, hmatch, hn, h0]
+  have h0 : m ≠ 0 := by omega
+  have hgt : ¬ a < m := by omega
+  simp [decodeAndVerifyG, hloop, hsort, hmatch, hn, h0, hgt]
+
+/-- a peer that holds the requested headers and delivers at least one of them: the client hands
+    the session a non-empty prefix of the requested chain headers -/
+theorem clientAnswer_progress (net : Net) (b : Beh) (hb : b.progressing = true) (h a : Nat)
+    (hh : 1 ≤ h) (ha : 1 ≤ a) (ha512 : a ≤ PEER_CAP)
+    (hcov : h + a - 1 ≤ net.chainLen) (hfit : h + a - 1 ≤ U64_MAX) :
+    ∃ m, 1 ≤ m ∧ m ≤ a ∧ clientAnswer 32 true net b h a = .ok ((List.range' h m).map chainHdr) := by
+  have hvalid : isValid 32 { data := .origin h, amount := a } = true := by
+    have h0 : a ≠ 0 := by omega
+    have hn : h ≠ 0 := by omega
+    simp [isValid, h0, hn]
+  have havail : (if 1 ≤ h ∧ h ≤ net.chainLen then min (min a PEER_CAP) (net.chainLen - h + 1) else 0) = a := by
+    have : 1 ≤ h ∧ h ≤ net.chainLen := ⟨hh, by omega⟩
+    simp only [this, and_self, ↓reduceIte]
+    omega
+  cases b with
+  | notFound => simp [Beh.progressing] at hb
+  | invalid => simp [Beh.progressing] at hb
+  | full =>
+    refine ⟨a, ha, Nat.le_refl _, ?_⟩
+    have hresps : peerResps net .full h a
+        = (List.range' h a).map (fun x => ({ status := 1, decoded := some (chainHdr x) } : Resp)) := by
+      have h0 : a ≠ 0 := by omega
+      simp only [peerResps, havail, h0, ↓reduceIte]
+    unfold clientAnswer
+    simp only [hvalid, Bool.not_true, Bool.false_eq_true, ↓reduceIte, hresps]
+    exact decode_chain_prefix h a a hh ha (Nat.le_refl _) hfit
+  | atMost k =>
+    simp only [Beh.progressing, decide_eq_true_eq] at hb
+    refine ⟨min a k, by omega, by omega, ?_⟩
+    have hresps : peerResps net (.atMost k) h a
+        = (List.range' h (min a k)).map (fun x => ({ status := 1, decoded := some (chainHdr x) } : Resp)) := by
+      have h0 : min a k ≠ 0 := by omega
+      simp only [peerResps, havail, h0, ↓reduceIte]
+    unfold clientAnswer
+    simp only [hvalid, Bool.not_true, Bool.false_eq_true, ↓reduceIte, hresps]
+    exact decode_chain_prefix h a (min a k) hh (by omega) (by omega) (by omega)
 
 /-- `getD` inside the list -/
 theorem getD_mem {β : Type} (l : List β) (i : Nat) (d : β) (h : i < l.length) : l.getD i d ∈ l := by
@@ -155,21 +178,23 @@ theorem drive_inv (net : Net) (r : Range) (hr : 1 ≤ r.1 ∧ r.1 ≤ r.2 ∧ r.
 /-- every received header is the served chain's header of its height -/
 def ChainOnly (s : State Hdr) : Prop := ∀ x ∈ s.responses.flatten, x = chainHdr x.height
 
-/-- with peers that hold the whole range and always answer fully, the drive completes within
-    `remaining` steps and only chain headers are received -/
+/-- with peers that hold the whole range and deliver at least one requested header per answer
+    (full or truncated, any order), the drive completes within `remaining` further steps and only
+    chain headers are received -/
 theorem drive_served (net : Net) (r : Range)
     (hr : 1 ≤ r.1 ∧ r.1 ≤ r.2 ∧ r.2 ≤ Lumina.Model.Session.U64_MAX) (hcov : r.2 ≤ net.chainLen)
-    (hfullb : ∀ j, cyc net.beh j .full = .full) :
+    (hprog : ∀ j, (cyc net.beh j .full).progressing = true) :
     ∀ (fuel j : Nat) (s : State Hdr), Inv ht 64 r s → Full 8 s → ChainOnly s →
       Lumina.Proofs.Session.remaining s ≤ fuel →
       ∃ s' steps, drive 32 true net fuel j s = .done s' steps ∧
-        Inv ht 64 r s' ∧ Full 8 s' ∧ s'.tasks = [] ∧ ChainOnly s' := by
+        Inv ht 64 r s' ∧ Full 8 s' ∧ s'.tasks = [] ∧ ChainOnly s' ∧
+        steps ≤ j + Lumina.Proofs.Session.remaining s := by
   intro fuel
   induction fuel with
   | zero =>
     intro j s hinv hfull hch hrem
     have ht0 := Lumina.Proofs.Session.remaining_zero_tasks ht 64 r s hinv (by omega)
-    exact ⟨s, j, by simp [drive, ht0], hinv, hfull, ht0, hch⟩
+    exact ⟨s, j, by simp [drive, ht0], hinv, hfull, ht0, hch, by omega⟩
   | succ fuel ih =>
     intro j s hinv hfull hch hrem
     by_cases hc : s.status ≠ .running ∨ s.tasks.isEmpty = true
@@ -177,7 +202,7 @@ theorem drive_served (net : Net) (r : Range)
         rcases hc with hc | hc
         · exact absurd hinv.running hc
         · exact List.isEmpty_iff.mp hc
-      exact ⟨s, j, by simp [drive, ht0], hinv, hfull, ht0, hch⟩
+      exact ⟨s, j, by simp [drive, ht0], hinv, hfull, ht0, hch, by omega⟩
     · simp only [drive, hc, ↓reduceIte]
       have hne : s.tasks ≠ [] := by
         intro e; apply hc; right; simp [e]
@@ -190,16 +215,16 @@ theorem drive_served (net : Net) (r : Range)
       have hrl : Lumina.Model.Session.rangeLen r = r.2 - r.1 + 1 := Lumina.Proofs.Session.rangeLen_pos hr.2.1
       rw [hrl] at hin
       have hU : Lumina.Model.Session.U64_MAX = U64_MAX := rfl
-      have hans := clientAnswer_full net t.1 t.2 (by omega) hamt.1 (by simp only [PEER_CAP]; omega)
-        (by omega) (by omega)
-      rw [hfullb j, hans]
+      obtain ⟨m, hm1, hma, hans⟩ := clientAnswer_progress net _ (hprog j) t.1 t.2 (by omega) hamt.1
+        (by simp only [PEER_CAP]; omega) (by omega) (by omega)
+      rw [hans]
       simp only
-      have hadm : AdmissibleEv ht s (.ok t.1 t.2 ((List.range' t.1 t.2).map chainHdr)) :=
-        ⟨hmem, by simp, by simp [chainHdr, Function.comp_def]⟩
+      have hadm : AdmissibleEv ht s (.ok t.1 t.2 ((List.range' t.1 m).map chainHdr)) :=
+        ⟨hmem, by simpa using hma, by simp [chainHdr, Function.comp_def]⟩
       obtain ⟨i1, i2⟩ := inv_step ht 64 8 r ⟨hr.2.1, hr.2.2⟩ s _ hinv hfull hadm
-      have hflat := Lumina.Proofs.Session.step_ok_flatten s t.1 t.2 ((List.range' t.1 t.2).map chainHdr)
+      have hflat := Lumina.Proofs.Session.step_ok_flatten s t.1 t.2 ((List.range' t.1 m).map chainHdr)
         hinv.running hmem
-      have hch' : ChainOnly (step s (.ok t.1 t.2 ((List.range' t.1 t.2).map chainHdr))) := by
+      have hch' : ChainOnly (step s (.ok t.1 t.2 ((List.range' t.1 m).map chainHdr))) := by
         intro x hx
         rw [hflat, List.mem_append] at hx
         rcases hx with hx | hx
@@ -211,6 +236,7 @@ theorem drive_served (net : Net) (r : Range)
       have hl2 := Lumina.Proofs.Session.inv_length ht 64 r _ i1
       rw [hflat] at hl2
       simp only [List.length_append, List.length_map, List.length_range'] at hl2
-      exact ih (j + 1) _ i1 i2 hch' (by omega)
+      obtain ⟨s', steps, h1, h2, h3, h4, h5, h6⟩ := ih (j + 1) _ i1 i2 hch' (by omega)
+      exact ⟨s', steps, h1, h2, h3, h4, h5, by omega⟩
 
 end Lumina.Proofs.HeaderRange
